@@ -192,6 +192,11 @@ func lastOf(victim *SimNode, creator *SimNode) (string, int) {
 	}
 	ev, err := store.GetEvent(last)
 	if err != nil {
+		// evicted from the victim's cache (still the creator's latest event in
+		// its index): the harness's own record of the DAG knows its height
+		if de := victim.c.dag.events[last]; de != nil {
+			return last, de.Index
+		}
 		return "", -1
 	}
 	return last, ev.Index()
@@ -377,6 +382,17 @@ func (c *Cluster) listingInvariant(victim *SimNode) string {
 		for h, e := range evs {
 			ev, err := store.GetEvent(e)
 			if err != nil {
+				if de := c.dag.events[e]; de != nil && victim.storeKind == "inmem" && victim.cacheSize < 1000 {
+					// evicted from a small in-memory cache: the listing itself is what
+					// is checked here, against the harness's record of the event
+					if !victim.ffDone && de.Index != h {
+						return fmt.Sprintf("creator %s: event at height %d has index %d", short(p.PubKeyString()), h, de.Index)
+					}
+					if de.Creator != p.PubKeyString() {
+						return fmt.Sprintf("creator %s: listing contains an event of %s", short(p.PubKeyString()), short(de.Creator))
+					}
+					continue
+				}
 				return fmt.Sprintf("creator %s: listed event %s at height %d is not in the store", short(p.PubKeyString()), short(e), h)
 			}
 			if !victim.ffDone && ev.Index() != h {
@@ -408,10 +424,14 @@ func (c *Cluster) toWireFor(victim *SimNode, ev *hg.Event) (hg.WireEvent, bool) 
 	}
 	if sp := ev.SelfParent(); sp != "" {
 		pe, err := store.GetEvent(sp)
-		if err != nil {
+		if err == nil {
+			we.Body.SelfParentIndex = pe.Index()
+		} else if de := c.dag.events[sp]; de != nil && de.Creator == ev.Creator() {
+			// (evicted from the victim's cache; the sender knows its own chain)
+			we.Body.SelfParentIndex = de.Index
+		} else {
 			return we, false
 		}
-		we.Body.SelfParentIndex = pe.Index()
 	}
 	if op := ev.OtherParent(); op != "" {
 		pe, err := store.GetEvent(op)
